@@ -7,6 +7,8 @@ pub mod hist;
 pub mod mixed;
 pub mod analyses;
 pub mod fp;
+pub mod pat;
+pub mod fprules;
 pub mod known;
 pub mod oracle;
 pub mod props;
